@@ -328,6 +328,9 @@ Proof.
       apply (ln_atomic_ok k). cbn. now rewrite Hs, Hf.
     + (* RemoveAll *) cbn [ln_lin_ok] in Hok. apply negb_true_iff in Hok. rewrite Hok.
       apply (ln_atomic_ok k). cbn. now rewrite Hok.
+    + (* Rename *) cbn [ln_lin_ok] in Hok. apply andb_true_iff in Hok as [Hs Hf].
+      apply negb_true_iff in Hs. apply negb_true_iff in Hf. rewrite Hs, Hf. cbn [orb].
+      apply (ln_atomic_ok k). cbn. now rewrite Hs, Hf.
     + (* Chmod *) cbn [ln_lin_ok] in Hok. apply negb_true_iff in Hok. rewrite Hok.
       apply (ln_atomic_ok k). cbn. now rewrite Hok.
     + (* Chtimes *) cbn [ln_lin_ok] in Hok. apply negb_true_iff in Hok. rewrite Hok.
@@ -367,7 +370,7 @@ Proof. apply sections_linearizable. intros; apply ln_lin_ok_atomic. Qed.
 (* the methods with one critical section whatever the configuration *)
 Definition ln_single_today (o : op) : bool :=
   match o with
-  | OpenFile _ _ _ | Mkdir _ _ | MkdirAll _ _ | RemoveAll _ | Chmod _ _ | Chtimes _ _ | HReaddirnames _ _ => false
+  | OpenFile _ _ _ | Mkdir _ _ | MkdirAll _ _ | RemoveAll _ | Rename _ _ | Chmod _ _ | Chtimes _ _ | HReaddirnames _ _ => false
   | _ => true
   end.
 Lemma ln_single_today_ok k o : ln_single_today o = true -> ln_lin_ok k o = true.
@@ -749,48 +752,49 @@ Definition w4_setup : list lop := [(Some 1%nat, OpenFile w_f (Z.lor o_rdwr o_cre
 Definition w4_s0 : lstate := fst (lin_replay lin_step lin_init w4_setup).
 Definition w_g : str := [47; 103]%N.
 Definition w4_progs : list (list lop) := [[(None, Chmod w_f 384)]; [(None, Rename w_f w_g); (None, Stat w_g)]].
-Definition w4_sched : list nat := [0; 0; 0; 1; 1; 1; 1; 1; 1; 0; 0; 0]%nat.
+(* padded: events of a thread that has finished are no-ops (Rename has one to three sections) *)
+Definition w4_sched : list nat := [0; 0; 0; 1; 1; 1; 1; 1; 1; 1; 1; 0; 0; 0]%nat.
 Definition w5_progs : list (list lop) := [[(None, Chtimes w_f 1000)]; [(None, Rename w_f w_g); (None, Stat w_g)]].
-Definition w5_sched : list nat := [0; 0; 1; 1; 1; 1; 1; 1; 0; 0; 0]%nat.
+Definition w5_sched : list nat := [0; 0; 1; 1; 1; 1; 1; 1; 1; 1; 0; 0; 0]%nat.
 
 Theorem refuted_excl_create k : sc_open_split k = true -> refuted k lin_init.
 Proof.
-  destruct k as [a b c d e f g h]; cbn [sc_open_split sc_mkdir_setmode sc_rmall_split sc_chmod_split sc_chtimes_split]; intros ->. apply (refuted_by _ _ w1_progs w1_sched);
-    destruct b, c, d, e, f, g, h; vm_compute; reflexivity.
+  destruct k as [a b c d e f g h i j]; cbn [sc_open_split sc_mkdir_setmode sc_rmall_split sc_chmod_split sc_chtimes_split]; intros ->. apply (refuted_by _ _ w1_progs w1_sched);
+    destruct b, c, d, e, f, g, h, i, j; vm_compute; reflexivity.
 Qed.
 
 (* both calls of the witness report success *)
 Lemma refuted_excl_create_both k : sc_open_split k = true ->
   map lc_res (lg_lin (ln_run k lin_init w1_progs w1_sched)) = [RHandle 0; RHandle 0].
-Proof. destruct k as [a b c d e f g h]; cbn [sc_open_split sc_mkdir_setmode sc_rmall_split sc_chmod_split sc_chtimes_split]; intros ->. destruct b, c, d, e, f, g, h; vm_compute; reflexivity. Qed.
+Proof. destruct k as [a b c d e f g h i j]; cbn [sc_open_split sc_mkdir_setmode sc_rmall_split sc_chmod_split sc_chtimes_split]; intros ->. destruct b, c, d, e, f, g, h, i, j; vm_compute; reflexivity. Qed.
 
 Theorem refuted_mkdir_then_remove k : sc_mkdir_setmode k = true -> refuted k lin_init.
 Proof.
-  destruct k as [a b c d e f g h]; cbn [sc_open_split sc_mkdir_setmode sc_rmall_split sc_chmod_split sc_chtimes_split]; intros ->. apply (refuted_by _ _ w2_progs w2_sched);
-    destruct a, b, d, e, f, g, h; vm_compute; reflexivity.
+  destruct k as [a b c d e f g h i j]; cbn [sc_open_split sc_mkdir_setmode sc_rmall_split sc_chmod_split sc_chtimes_split]; intros ->. apply (refuted_by _ _ w2_progs w2_sched);
+    destruct a, b, d, e, f, g, h, i, j; vm_compute; reflexivity.
 Qed.
 
 Lemma refuted_mkdir_then_remove_results k : sc_mkdir_setmode k = true ->
   map (fun x => (lc_op x, lc_res x)) (lg_lin (ln_run k lin_init w2_progs w2_sched)) =
   [((None, Remove w_d), ROk); ((None, Mkdir w_d 493), RErr (EW KNotExist))].
-Proof. destruct k as [a b c d e f g h]; cbn [sc_open_split sc_mkdir_setmode sc_rmall_split sc_chmod_split sc_chtimes_split]; intros ->. destruct a, b, d, e, f, g, h; vm_compute; reflexivity. Qed.
+Proof. destruct k as [a b c d e f g h i j]; cbn [sc_open_split sc_mkdir_setmode sc_rmall_split sc_chmod_split sc_chtimes_split]; intros ->. destruct a, b, d, e, f, g, h, i, j; vm_compute; reflexivity. Qed.
 
 Theorem refuted_removeall k : sc_rmall_split k = true -> refuted k w3_s0.
 Proof.
-  destruct k as [a b c d e f g h]; cbn [sc_open_split sc_mkdir_setmode sc_rmall_split sc_chmod_split sc_chtimes_split]; intros ->. apply (refuted_by _ _ w3_progs w3_sched);
-    destruct a, b, c, e, f, g, h; vm_compute; reflexivity.
+  destruct k as [a b c d e f g h i j]; cbn [sc_open_split sc_mkdir_setmode sc_rmall_split sc_chmod_split sc_chtimes_split]; intros ->. apply (refuted_by _ _ w3_progs w3_sched);
+    destruct a, b, c, e, f, g, h, i, j; vm_compute; reflexivity.
 Qed.
 
 Theorem refuted_chmod_rename k : sc_chmod_split k = true -> refuted k w4_s0.
 Proof.
-  destruct k as [a b c d e f g h]; cbn [sc_chmod_split]; intros ->. apply (refuted_by _ _ w4_progs w4_sched);
-    destruct a, b, c, d, f, g, h; vm_compute; reflexivity.
+  destruct k as [a b c d e f g h i j]; cbn [sc_chmod_split]; intros ->. apply (refuted_by _ _ w4_progs w4_sched);
+    destruct a, b, c, d, f, g, h, i, j; vm_compute; reflexivity.
 Qed.
 
 Theorem refuted_chtimes_rename k : sc_chtimes_split k = true -> refuted k w4_s0.
 Proof.
-  destruct k as [a b c d e f g h]; cbn [sc_chtimes_split]; intros ->. apply (refuted_by _ _ w5_progs w5_sched);
-    destruct a, b, c, d, e, g, h; vm_compute; reflexivity.
+  destruct k as [a b c d e f g h i j]; cbn [sc_chtimes_split]; intros ->. apply (refuted_by _ _ w5_progs w5_sched);
+    destruct a, b, c, d, e, g, h, i, j; vm_compute; reflexivity.
 Qed.
 
 (* ================================================================ the two later switches *)
@@ -829,18 +833,18 @@ Qed.
 Definition w6_setup : list lop := [(None, Mkdir w_d 493); (Some 1%nat, Create w_dx); (Some 10%nat, Open w_d)].
 Definition w6_s0 : lstate := fst (lin_replay lin_step lin_init w6_setup).
 Definition w6_progs : list (list lop) := [[(None, HReaddirnames 10 (-1))]; [(None, Rename w_dx w_g)]].
-Definition w6_sched : list nat := [0; 0; 1; 1; 1; 0; 0]%nat.
+Definition w6_sched : list nat := [0; 0; 1; 1; 1; 1; 1; 0; 0]%nat.
 
 Theorem refuted_readdirnames_rename k : sc_rdnames_split k = true -> refuted k w6_s0.
 Proof.
-  destruct k as [a b c d e f g h]; cbn [sc_rdnames_split]; intros ->. apply (refuted_by _ _ w6_progs w6_sched);
-    destruct a, b, c, d, e, f, g; vm_compute; reflexivity.
+  destruct k as [a b c d e f g h i j]; cbn [sc_rdnames_split]; intros ->. apply (refuted_by _ _ w6_progs w6_sched);
+    destruct a, b, c, d, e, f, g, i, j; vm_compute; reflexivity.
 Qed.
 
 Lemma refuted_readdirnames_rename_results k : sc_rdnames_split k = true ->
   map (fun x => (lc_op x, lc_res x)) (lg_lin (ln_run k w6_s0 w6_progs w6_sched)) =
   [((None, Rename w_dx w_g), ROk); ((None, HReaddirnames 10 (-1)), RNames [[103%N]] None)].
-Proof. destruct k as [a b c d e f g h]; cbn [sc_rdnames_split]; intros ->. destruct a, b, c, d, e, f, g; vm_compute; reflexivity. Qed.
+Proof. destruct k as [a b c d e f g h i j]; cbn [sc_rdnames_split]; intros ->. destruct a, b, c, d, e, f, g, i, j; vm_compute; reflexivity. Qed.
 
 (* ---- OpenFile(O_WRONLY|O_CREATE|O_TRUNC) creates /f; Chtimes sets its time; OpenFile's
    truncate, after its locked section, stamps the file again: Chtimes "succeeded" without
@@ -852,8 +856,8 @@ Definition w7_sched : list nat := [0; 0; 1; 1; 1; 1; 0; 0; 0]%nat.
 
 Theorem refuted_openfile_trunc k : sc_open_split k = false -> sc_open_finish k = true -> refuted k lin_init.
 Proof.
-  destruct k as [a b c d e f g h]; cbn [sc_open_split sc_open_finish]; intros -> ->. apply (refuted_by _ _ w7_progs w7_sched);
-    destruct b, c, d, e, f, h; vm_compute; reflexivity.
+  destruct k as [a b c d e f g h i j]; cbn [sc_open_split sc_open_finish]; intros -> ->. apply (refuted_by _ _ w7_progs w7_sched);
+    destruct b, c, d, e, f, h, i, j; vm_compute; reflexivity.
 Qed.
 
 Lemma refuted_openfile_trunc_results k : sc_open_split k = false -> sc_open_finish k = true ->
@@ -861,6 +865,64 @@ Lemma refuted_openfile_trunc_results k : sc_open_split k = false -> sc_open_fini
     [((None, Chtimes w_f 1000), ROk); ((Some 10%nat, OpenFile w_f w_crtr 412), RHandle 0)] /\
   map e_mtime (lin_obs (lg_st (ln_run k lin_init w7_progs w7_sched))) = [BIG; BIG].
 Proof.
-  destruct k as [a b c d e f g h]; cbn [sc_open_split sc_open_finish]; intros -> ->.
-  destruct b, c, d, e, f, h; vm_compute; split; reflexivity.
+  destruct k as [a b c d e f g h i j]; cbn [sc_open_split sc_open_finish]; intros -> ->.
+  destruct b, c, d, e, f, h, i, j; vm_compute; split; reflexivity.
 Qed.
+
+(* ================================================================ Rename and the directories' mutexes *)
+Definition w_e : str := [47; 101]%N.                 (* /e *)
+Definition w_ex : str := [47; 101; 47; 120]%N.       (* /e/x *)
+
+(* ---- /d/x moves to /e/x; between its leaving /d and its entering /e a goroutine lists /d and
+   THEN /e through handles opened before: x is in neither ---- *)
+Definition w8_setup : list lop :=
+  [(None, Mkdir w_d 493); (None, Mkdir w_e 493); (Some 1%nat, Create w_dx); (Some 10%nat, Open w_d); (Some 11%nat, Open w_e)].
+Definition w8_s0 : lstate := fst (lin_replay lin_step lin_init w8_setup).
+Definition w8_progs : list (list lop) :=
+  [[(None, Rename w_dx w_ex)]; [(None, HReaddirnames 10 (-1)); (None, HReaddirnames 11 (-1))]].
+(* Rename: invoke, first section; the two listings; the rest of Rename (padded: events of a
+   thread that has finished are no-ops) *)
+Definition w8_sched : list nat := [0; 0; 1; 1; 1; 1; 1; 1; 1; 1; 0; 0; 0; 0; 0]%nat.
+
+(* the goroutine that runs between Rename's sections only uses handles: these calls do not take mu *)
+Lemma w8_lister_handles_only : Forall (fun c : lop => op_handle_of (snd c) <> None) (nth 1 w8_progs []).
+Proof. repeat constructor; discriminate. Qed.
+
+Theorem refuted_rename_two_parents k : sc_rename_parents_split k = true -> refuted k w8_s0.
+Proof.
+  destruct k as [a b c d e f g h i j]; cbn [sc_rename_parents_split]; intros ->. apply (refuted_by _ _ w8_progs w8_sched);
+    destruct a, b, c, d, e, f, g, h, j; vm_compute; reflexivity.
+Qed.
+
+Lemma refuted_rename_two_parents_results k : sc_rename_parents_split k = true ->
+  map (fun x => (lc_op x, lc_res x)) (lg_lin (ln_run k w8_s0 w8_progs w8_sched)) =
+  [((None, HReaddirnames 10 (-1)), RNames [] None); ((None, HReaddirnames 11 (-1)), RNames [] None);
+   ((None, Rename w_dx w_ex), ROk)].
+Proof. destruct k as [a b c d e f g h i j]; cbn [sc_rename_parents_split]; intros ->. destruct a, b, c, d, e, f, g, h, j; vm_compute; reflexivity. Qed.
+
+(* ---- /d, with children x and y, becomes /g; while x is out of the directory (unregistered, not
+   yet registered under its new name) a goroutine lists the directory through a handle opened
+   before: one child of two ---- *)
+Definition w9_setup : list lop :=
+  [(None, Mkdir w_d 493); (Some 1%nat, Create w_dx); (Some 2%nat, Create w_dy); (Some 10%nat, Open w_d)].
+Definition w9_s0 : lstate := fst (lin_replay lin_step lin_init w9_setup).
+Definition w9_progs : list (list lop) := [[(None, Rename w_d w_g)]; [(None, HReaddirnames 10 (-1))]].
+(* Rename: invoke, its sections up to the one that takes the first child out (one more when the
+   parents are separate holds as well); the listing; the rest *)
+Definition w9_sched (k : seccfg) : list nat :=
+  ((if sc_rename_parents_split k then [0; 0; 0; 0] else [0; 0; 0]) ++ [1; 1; 1; 1; 0; 0; 0; 0; 0; 0])%nat.
+
+Lemma w9_lister_handles_only : Forall (fun c : lop => op_handle_of (snd c) <> None) (nth 1 w9_progs []).
+Proof. repeat constructor; discriminate. Qed.
+
+Theorem refuted_rename_dir_children k : sc_rename_kids_split k = true -> refuted k w9_s0.
+Proof.
+  destruct k as [a b c d e f g h i j]; cbn [sc_rename_kids_split]; intros ->.
+  apply (refuted_by _ _ w9_progs (w9_sched (mkCfg a b c d e f g h i true)));
+    destruct a, b, c, d, e, f, g, h, i; vm_compute; reflexivity.
+Qed.
+
+Lemma refuted_rename_dir_children_results k : sc_rename_kids_split k = true ->
+  map (fun x => (lc_op x, lc_res x)) (lg_lin (ln_run k w9_s0 w9_progs (w9_sched k))) =
+  [((None, HReaddirnames 10 (-1)), RNames [[121%N]] None); ((None, Rename w_d w_g), ROk)].
+Proof. destruct k as [a b c d e f g h i j]; cbn [sc_rename_kids_split]; intros ->. destruct a, b, c, d, e, f, g, h, i; vm_compute; reflexivity. Qed.
